@@ -3,7 +3,8 @@
 # Static check of one property against /repo's current working tree (sources are re-loaded and re-type-checked on every run).
 # thorough = the analysis over the extended class sets, plus a self-test of the rules: every recorded breaking change
 # (mutants/<property>/*.diff, seeded/<property>-*/patch.diff) is applied to a scratch copy of /repo outside /repo and /verif,
-# the check must report it, the copy is removed at once. Patches that no longer apply to an edited tree are skipped and counted.
+# the check must report it, the copy is removed at once; every recorded behaviour-preserving edit (mutants/<property>/*_SILENT*,
+# refactorings/*.diff) is replayed the same way and the check must stay silent. Patches that no longer apply to an edited tree are skipped and counted.
 cd "$(dirname "$0")"
 . ./env.sh
 if [ ! -x bin/ddpverif ] || [ -n "$(find checker -newer bin/ddpverif -name '*.go' 2>/dev/null | head -1)" ]; then
@@ -18,17 +19,17 @@ bin/ddpverif --tier thorough "$prop"; code=$?
 # ---- rule self-test (never changes the verdict on /repo) ----
 # a seeded change that the later fix: commits made inapplicable has a patch.rebased.diff (same change on the current tree);
 # seeds recorded as not decided by the rules (meta.json detected_by starts with "missed" or "superseded") are not replayed
-patches=$(ls mutants/"$prop"/*.diff mutants/"$prop"/*.patch 2>/dev/null
+patches=$(ls mutants/"$prop"/*.diff mutants/"$prop"/*.patch refactorings/*.diff 2>/dev/null
   for d in seeded/"$prop"-*/; do [ -d "$d" ] || continue
     if python3 -c "import json,sys; m=json.load(open('$d/meta.json')); sys.exit(0 if str(m.get('detected_by','')).lower().startswith(('missed','superseded')) else 1)" 2>/dev/null; then continue; fi
     if [ -f "$d/patch.rebased.diff" ]; then echo "$d/patch.rebased.diff"; else echo "$d/patch.diff"; fi
   done)
 if [ -n "$patches" ]; then
-  res=$(printf '%s\n' $patches | xargs -P 8 -I{} sh -c 'out=$(VERIF_TIER=quick /verif/tools/mutant.sh '"$prop"' {} 2>&1); rc=$?; echo "{} $rc"')
+  res=$(printf '%s\n' $patches | xargs -P 8 -I{} sh -c 'out=$(GOMAXPROCS=4 GOGC=400 VERIF_TIER=quick /verif/tools/mutant.sh '"$prop"' {} 2>&1); rc=$?; echo "{} $rc"')
   fired=0; silent=0; skipped=0; expected_silent=0; miss=""
   while read -r p rc; do
     [ -z "$p" ] && continue
-    case "$p" in *SILENT*) if [ "$rc" = 1 ]; then expected_silent=$((expected_silent+1)); else miss="$miss $p(fired-on-a-behaviour-preserving-edit)"; fi; continue;; esac
+    case "$p" in *SILENT*|refactorings/*) if [ "$rc" = 1 ]; then expected_silent=$((expected_silent+1)); else miss="$miss $p(fired-on-a-behaviour-preserving-edit)"; fi; continue;; esac
     case "$rc" in 0) fired=$((fired+1));; 2) skipped=$((skipped+1));; *) silent=$((silent+1)); miss="$miss $p";; esac
   done <<< "$res"
   echo "self-test $prop: $fired recorded breaking changes reported, $expected_silent behaviour-preserving edits left alone, $skipped patches no longer apply, $silent missed${miss:+ ($miss )}"
